@@ -48,6 +48,33 @@ CHECKS['C17'] = (
     'Every token row, every dependency matrix and token identity/order compared bit for bit on random documents/dictionaries in both call '
     'forms; rejection of unlisted categories driven explicitly; all 6902 shipped words in one document; held-on-observed.',
     'Random documents are sampled; expected mask computed by the harness.', '§6')
+SEARCH_NOTE = ('Real parsing.h (plain and ASan+UBSan builds via a generated C ABI shim) under the real parsing.pyx executed by pyxlite under the '
+               'real depccg.parsing.run; pop hook trace read natively. Trusts vlib/oracle_cky.py and pyxlite\'s emulation of Cython typed semantics.')
+CHECKS['C01'] = (
+    'online monitor over the pop-hook trace (priorities non-increasing) + first parse vs exhaustive-CKY reference + failure legitimacy, '
+    'plain and ASan/UBSan builds',
+    'Thousands of sentences over random head-uniform table grammars and five score families (exact arithmetic for dyadic scores); held-on-observed.',
+    SEARCH_NOTE, '§3 C01')
+CHECKS['C02'] = (
+    'structural validator over every returned tree, re-querying the grammar callable, membership in the reference enumeration; glue UB / '
+    'swallowed-exception flags; ASan/UBSan',
+    '1-best and n-best lists; leaves must be the input token objects with admitted tags, nodes grammar results, allowed root, no unary at root.',
+    SEARCH_NOTE, '§3 C02')
+CHECKS['C09'] = (
+    'score recomputed from the returned tree alone (its own head flags) vs ScoredTree.score, exact for dyadic families',
+    'All trees of all lists, both head directions, penalties incl. 0; placeholder must carry -inf.', SEARCH_NOTE, '§3 C09')
+CHECKS['C10'] = (
+    'n-best list vs complete enumeration of derivations by the reference (count, distinctness, order, top-k scores, first == 1-best)',
+    'Sentences small enough to enumerate; k from 1 to #derivations+3; ties included.', SEARCH_NOTE, '§3 C10')
+CHECKS['C16'] = (
+    'leaf tags vs an independent must/may statement of the beam; parse/fail flips vs reference over may/must sets; rows built around the beta '
+    'and rank boundaries',
+    'Boundary-centred rows, flattened rows, beta 1e-5..0.9, pruning 1..60, filter on/off.', SEARCH_NOTE, '§3 C16')
+CHECKS['C07'] = (
+    'real to_string on deep copies -> independent decoder per format -> structural comparison with the source derivation (words, shape, '
+    'categories, labels, heads, attributes, offsets, conll heads, numbering)',
+    'Grammar-licensed and arbitrary trees, hostile tokens within each format\'s representable domain, batches x n-best, both languages.',
+    'Trusts vlib/codecs.py and vlib/fmtcheck.py as statements of the formats.', '§5 C07')
 
 NOT_YET = {}
 
